@@ -262,6 +262,8 @@ func main() {
 		os.Exit(cmdCheck(os.Args[2:]))
 	case "list":
 		cmdList(os.Args[2:])
+	case "replay":
+		os.Exit(cmdReplay(os.Args[2:]))
 	default:
 		fmt.Fprintln(os.Stderr, "unknown command")
 		os.Exit(2)
@@ -401,4 +403,41 @@ func (w *World) havocMutableGlobals(st *State, ii *initInfo) {
 			st.mems[name] = NewBaseMem(name, m.ksort, m.sort, "M0."+name)
 		}
 	}
+}
+
+// cmdReplay re-runs a stored replay test against /repo's working tree.
+func cmdReplay(args []string) int {
+	if len(args) != 1 {
+		fmt.Fprintln(os.Stderr, "usage: govc replay <file>")
+		return 2
+	}
+	b, err := os.ReadFile(args[0])
+	if err != nil {
+		fmt.Fprintln(os.Stderr, err)
+		return 2
+	}
+	if !strings.HasSuffix(args[0], ".go") {
+		fmt.Print(string(b))
+		fmt.Println("(this violation has no executable counterexample: the file above names the failed obligation and carries the solver output)")
+		return 1
+	}
+	pkg := ""
+	for _, ln := range strings.Split(string(b), "\n") {
+		if i := strings.Index(ln, "-run TestVerifReplay "); i >= 0 {
+			pkg = strings.TrimSpace(ln[i+len("-run TestVerifReplay "):])
+		}
+	}
+	if pkg == "" {
+		fmt.Fprintln(os.Stderr, "cannot find the package path in the replay header")
+		return 2
+	}
+	out, err := runReplayFile(args[0], pkg)
+	fmt.Print(out)
+	if strings.Contains(out, "VERIF-REPLAY: reproduced") {
+		return 1
+	}
+	if err != nil {
+		return 2
+	}
+	return 0
 }
